@@ -342,6 +342,19 @@ static std::string doOp(const std::string& op) {
     catch (RuntimeError& re) { return rerr(re); }
     return "ok";
   }
+  // BEGIN C19: `args K <hex>,<hex>,…|-` — load the table $ARG exactly as apps/main.cpp:177-183 does
+  if (cmd == "args") {
+    Context& c = *K(1).ctx;
+    Collection* c_arg = new Collection(Value::type_literal.levelUp());
+    if (a.at(2) != "-") for (auto& h : split(a.at(2), ',')) c_arg->push_back(Value(new Literal(hexdec(h))));
+    try {
+      const Symbol& c_sym = c.registerSymbol(std::string("$ARG"), c_arg->table_type());
+      c.storeVariable(c_sym.id(), Value(c_arg));
+    } catch (ParseError& pe) { return perr(pe); }
+    catch (RuntimeError& re) { return rerr(re); }
+    return "ok";
+  }
+  // END C19
   if (cmd == "parse") {
     Context& c = *K(1).ctx; StringReader reader(hexdec(a.at(3)));
     try { X(2) = Parser::parse(c, reader); return "ok"; }
